@@ -37,6 +37,9 @@ def configs(tier):
         dict(name="sock + timer + post in one batch", sample=n,
              over=dict(Kinds=["sock"], NT=1, MaxTick=2, MaxPosts=1, Cmds={"read", "cancel", "close", "tonce", "tcancel", "post"},
                        Envs={"send", "tick"}, MaxCmds=mc)),
+        dict(name="descriptor replaced underneath a conn (every later epoll_ctl fails), then cancel / close / cancel again", sample=n,
+             over=dict(Kinds=["sock"], Cmds={"read", "write", "cancel", "close"}, Envs={"send", "fillw", "yank"},
+                       MaxOps=3, MaxCmds=mc + 1)),
         dict(name="reconnect: a handler closes its conn and opens the successor (which gets the freed descriptor number)", sample=n,
              over=dict(Kinds=["sock", "sock"], Late={2}, Cmds={"read", "close", "open"}, Envs={"send", "peerclose"},
                        MaxOps=3, MaxCmds=mc + 2, HBudget=3)),
